@@ -53,6 +53,10 @@ type slotC14 struct {
 }
 
 func checkC14(c caseC14) (sig, msg string) {
+	guard.SetCurrent(func() []byte {
+		return mustJSON(vf.Failure{Property: "C14", Kind: "hang", Case: mustJSON(c), Signature: "hang", Message: "a library call made for this case did not return"})
+	})
+	defer guard.SetCurrent(nil)
 	var pool []*slotC14
 	verify := func(step int, op opC14, except int) bool {
 		for i, s := range pool {
